@@ -32,8 +32,11 @@ MAP_TYPES = [1, 3, 4, 0, 2, 17, 31]
 def plan(tier, seed):
     sh = []
     if tier == "quick":
-        for i, dt in enumerate(QUICK_DTS):
-            sh.append({"kind": "g16", "dts": [dt], "lo": 0, "hi": 65536})
+        # every device type is decoded by two processes that visit the device types in opposite orders: the per-block
+        # digests must agree (cross_check), i.e. a decode must not depend on which device types were decoded before
+        for grp in ([0, 6, 8], [1, 4, 5], [2, 3, 7], [254, 255, 9]):
+            sh.append({"kind": "g16", "dts": grp, "lo": 0, "hi": 65536})
+            sh.append({"kind": "g16", "dts": grp[::-1], "lo": 0, "hi": 65536, "light": True})
         for p in range(8):
             sh.append({"kind": "d24", "lo": 8192 * p, "hi": 8192 * (p + 1), "lows": [0x00, 0x01, 0x55, 0xFF],
                        "random": 8192})
@@ -45,6 +48,8 @@ def plan(tier, seed):
         sh.append({"kind": "maphist", "n": 5000})
         for dt0 in range(0, 256, 4):
             sh.append({"kind": "g16", "dts": list(range(dt0, dt0 + 4)), "lo": 0, "hi": 65536})
+        for dt0 in (0, 4, 8, 252):
+            sh.append({"kind": "g16", "dts": list(range(dt0, dt0 + 4))[::-1], "lo": 0, "hi": 65536, "light": True})
         for p in range(128):
             sh.append({"kind": "d24", "lo": 512 * p, "hi": 512 * (p + 1), "lows": "all", "random": 0})
         for p in range(64):
@@ -185,7 +190,7 @@ def generic_expected(cx, n, v, dt, mapname):
     return cx.Command
 
 
-def run_block(cx, res, cases, seed, tag, anchor):
+def run_block(cx, res, cases, seed, tag, anchor, light=False, block_key=None):
     """cases: list of (n, v, dt, mapname).  Three decode orders, digests compared per case."""
     dig = [None] * len(cases)
     for i, (n, v, dt, mp) in enumerate(cases):
@@ -203,6 +208,10 @@ def run_block(cx, res, cases, seed, tag, anchor):
                               f"as {type(r).__name__}; expected the generic {want.__name__}",
                               {"len": n, "frame": v, "dt": dt, "map": mp, "text": str(r)})
     res.hit(anchor, len(cases))
+    if block_key is not None:
+        res.extra.setdefault("block_digests", []).append(f"{block_key}={hash(tuple(dig)) & 0xFFFFFFFFFFFF:x}")
+    if light:
+        return
     res.distinct += len(cases)
     # pass 2: seeded shuffle
     order = list(range(len(cases)))
@@ -290,6 +299,20 @@ def map_histories(cx, res, n, seed):
             res.sample({"map_history": log})
 
 
+def cross_check(extra):
+    """The same (device type, frame range) block decoded by different processes (other device types decoded before it)."""
+    seen = {}
+    out = []
+    for item in extra.get("block_digests", []):
+        key, d = item.split("=")
+        if key in seen and seen[key] != d:
+            out.append({"key": "C01/order-dependent/across-contexts",
+                        "what": f"block {key} (kind:device type:frame range) decodes differently depending on which device types were decoded "
+                                "earlier in the same process", "witness": {"block": key, "digests": [seen[key], d]}})
+        seen.setdefault(key, d)
+    return out
+
+
 def run_shard(desc, tier, seed):
     res = Result()
     cx = Ctx()
@@ -305,7 +328,8 @@ def run_shard(desc, tier, seed):
     if kind == "g16":
         for dt in desc["dts"]:
             cases = [(16, v, dt, "none") for v in range(desc["lo"], desc["hi"])]
-            run_block(cx, res, cases, seed, f"g16-{dt}", "decoded16")
+            run_block(cx, res, cases, seed, f"g16-{dt}", "decoded16", light=desc.get("light", False),
+                      block_key=f"g16:{dt}:{desc['lo']}:{desc['hi']}")
         res.sample({"len": 16, "dts": desc["dts"], "frames": [hex(desc["lo"]), hex(desc["hi"] - 1)]})
     elif kind == "d24":
         lows = range(256) if desc["lows"] == "all" else desc["lows"]
@@ -328,8 +352,8 @@ def run_shard(desc, tier, seed):
             datas = list(range(1024))
         else:
             r = rng(seed, "C01", "ev", desc["alo"])
-            datas = sorted(set(list(range(0, 20)) + [31, 32, 63, 64, 255, 256, 511, 512, 1022, 1023] +
-                               [r.getrandbits(10) for _ in range(24)]))
+            datas = sorted(set(list(range(0, 17)) + [31, 32, 255, 256, 512, 1022, 1023] +
+                               [r.getrandbits(10) for _ in range(8)]))
         for mp in ["none", "empty"] + [f"t{t}" for t in MAP_TYPES]:
             cases = []
             for a in range(desc["alo"], desc["ahi"]):
@@ -358,8 +382,11 @@ def run_shard(desc, tier, seed):
         map_histories(cx, res, desc["n"], seed)
     fp1 = fingerprint()
     res.hit("fingerprints_compared")
-    if fp0 != fp1:
-        changed = [k for k in fp0 if fp0[k] != fp1.get(k)] + [k for k in fp1 if k not in fp0]
+    new_containers = [k for k in fp1 if k not in fp0]
+    if new_containers:
+        res.observe("class-level-container-created-while-decoding", str(new_containers[:3]))
+    if any(fp0[k] != fp1.get(k) for k in fp0):
+        changed = [k for k in fp0 if fp0[k] != fp1.get(k)]
         res.violation("C01/registry-mutated", f"decoding changed class-level registries: {changed[:5]}",
                       {"changed": changed[:10], "shard": desc})
     res.add("registries_fingerprinted", len(fp0))
